@@ -40,8 +40,16 @@ def score_prof(rnd, n=None):
     return canon.spec_profile(cs, bl)
 
 
-def expect(ctx, case, fn, exc, row):
+ROWS = []  # rows of the current repetition, for the second pass
+
+
+def expect(ctx, case, fn, exc, row, second=False):
     """exc: exception class the call must raise, or None when the call must be accepted"""
+    if not second:
+        ROWS.append((case, fn, exc, row))
+    else:
+        case = dict(case, what=case["what"] + "  [asked again after the other requests of this repetition, same objects]")
+        ctx.count("second_pass_rows")
     o = observe(fn)
     ctx.count("rows_" + row)
     ctx.case(case, nontrivial=exc is not None)
@@ -98,6 +106,8 @@ def run(ctx):
     for rep in range(reps):
         if ctx.expired():
             break
+        if ROWS:
+            second_pass(ctx, rnd)
         spec = full_profile(rnd)
         n = len(spec["cands"])
         cs = spec["cands"]
@@ -262,6 +272,18 @@ def run(ctx):
                lambda: PreferenceProfile(ballots=(), candidates=tuple(dup)), ValueError, "profile_dups")
         expect(ctx, {"what": "PreferenceProfile: distinct candidates"},
                lambda: PreferenceProfile(ballots=(), candidates=tuple(cs)), None, "profile_dups")
+    if ROWS:
+        second_pass(ctx, rnd)
+
+
+def second_pass(ctx, rnd):
+    """every request of the repetition once more, in another order, on the same profile / parameter objects: a request that
+    was (in)valid stays (in)valid whatever was asked in between (validation results remembered on objects or in caches)"""
+    rows = list(ROWS)
+    del ROWS[:]
+    rnd.shuffle(rows)
+    for case, fn, exc, row in rows:
+        expect(ctx, case, fn, exc, row, second=True)
 
 
 def replay(ctx, case):
